@@ -97,6 +97,12 @@ func vhC18Bytes(a []int, twin bool) {
 	vReach("C18.end")
 }
 
+// vh_C18_subst_order: the scenario of vh_C10_subst_order counted for C18: values that contain other parameters'
+// markers are inserted as they are (one left-to-right pass), whatever the order of the dictionary.
+func vh_C18_subst_order(a []int) { vh_C10_subst_order(a) }
+
+func init() { vhRegister("vh_C18_subst_order", vh_C18_subst_order) }
+
 func vhMarked(tag string) string { return tag + "<{P}>" }
 
 // vh_C18_fields: exactly the four kinds of fields are rewritten, in every item.
